@@ -8,7 +8,7 @@
 From Coq Require Import List NArith ZArith Bool.
 From NV Require Import Base.Percent Base.PercentProofs Text.TextBase Vcf.Values Vcf.ValuesProofs
   Vcf.GenotypeProofs Vcf.SampleProofs Vcf.Span Vcf.Record Vcf.SpanProofs Vcf.Line Vcf.LineProofs Vcf.Header Vcf.HeaderProofs
-  Vcf.LazyRec Vcf.LazyRecProofs Vcf.FrameProofs Vcf.LazyFileProofs.
+  Vcf.LazyRec Vcf.LazyRecProofs Vcf.FrameProofs Vcf.LazyFileProofs Vcf.LazyAgreeProofs Vcf.File Vcf.FileProofs.
 Import ListNotations.
 Open Scope N_scope.
 
@@ -276,27 +276,100 @@ Theorem c09_lazy_bounds_agree_framed : forall valid prs_float h t rest,
 Proof. exact lazy_run_framed. Qed.
 Print Assumptions c09_lazy_bounds_agree_framed.
 
-(* still open (tested by the lzb / ltxt correspondence on arbitrary bytes): the same agreement for
-   EVERY text -- CR inside the line, fewer than eight columns, a last line without LF *)
-Definition c09_lazy_bounds_agree_full_statement : Prop :=
-  forall valid prs_float h text,
+(* ... and for EVERY text that contains an LF (formerly c09_lazy_bounds_agree_full_statement, only
+   tested): CR anywhere in the line, fewer than eight columns, empty columns, anything after the
+   LF -- the bounds-level reader (read_record + every accessor forced) is Err exactly when
+   NV.Vcf.Line.read_lazy of the framed line is Err for lack of columns, and otherwise returns the
+   record of read_lazy (or its accessor error), having consumed the line and its LF.  [valid] must
+   accept the byte strings made of bytes of the text (UTF-8 errors are the other way to Err: they
+   are compared with the implementation by the lzb cases). *)
+Theorem c09_lazy_bounds_agree : forall valid prs_float h text,
   (forall s, (forall b, In b s -> In b text) -> valid s = true) -> mem 10 text = true ->
   match lazy_run prs_float valid h text with
-  | LRec n f r rest => r = read_lazy prs_float h (frame text)
+  | LRec n f r rest =>
+      r = read_lazy prs_float h (frame text) /\
+      n = S (length (take_until 10 text)) /\ rest = skipn n text
   | LErr => read_lazy prs_float h (frame text) = None
   | _ => False
   end.
+Proof. exact lazy_bounds_agree_rest. Qed.
+Print Assumptions c09_lazy_bounds_agree.
 
-(* the remaining part of the FILE statement: header lines + record lines in one text, read by
-   read_header (NV.Io.HeaderRead.hdr_closed, property C12) and then record by record by BOTH
-   readers, with the lookup tables of hctx computed from the parsed header (incl. reserved keys) *)
-Definition c09_file_roundtrip_full_statement
-  (header : Type) (hctx_of_header : header -> hctx)
-  (write_file : header -> list vrec -> option (list N))
-  (read_file_eager read_file_lazy : list N -> option (header * list vrec)) : Prop :=
-  forall hd rs text, write_file hd rs = Some text ->
-    read_file_eager text = Some (hd, map (canon (hctx_of_header hd)) rs) /\
-    read_file_lazy text = Some (hd, map (canon (hctx_of_header hd)) rs).
+(* THE FILE (formerly c09_file_roundtrip_full_statement): a header and records written into ONE
+   text by write_header + write_variant_record, read back by read_header (the line splitting of
+   NV.Io.HeaderRead.hdr_closed -- the closed form property C12 proves the delivered reader equal
+   to -- with LF / CR LF stripped, the header parser WITH the reserved-definition check) and then
+   record by record by BOTH readers: the eager loop through ONE reused RecordBuf and the lazy
+   loop through ONE reused Record at the level of buffer and bounds, each until Ok(0).  The
+   lookup tables of the record readers are COMPUTED from the parsed header (hctx_of_header: the
+   header's INFO / FORMAT lines first, then the crate-private reserved-key table of the file
+   format, VCF 4.3 / 4.4 / 4.5; GT before 4.4 by the file format's order).  Both readers return
+   the header and canon of every record, and end with Ok(0).
+   Premises: header_ok (as in c09_header_roundtrip); hdr_defs_ok (an INFO / FORMAT line whose ID
+   is a reserved key carries the reserved Number and Type -- otherwise read_header is an error:
+   c09_file_witnesses); header_framed (no LF inside and no CR at the end of a written header line
+   -- quoted values may hold any byte); rec_ok of every record under the COMPUTED tables;
+   first_chrom_ok (the first record's CHROM does not start with '#': c09_file_first_chrom_hash);
+   [valid] accepts the byte strings made of bytes of the file. *)
+Theorem c09_file_roundtrip :
+  forall fmt_float prs_float (FOK : N -> Prop),
+  (forall b, FOK b -> prs_float (fmt_float b) = Some b) ->
+  (forall b x, FOK b -> In x (fmt_float b) -> x <> 44 /\ x <> 9 /\ x <> 10 /\ x <> 59 /\ x <> 58) ->
+  (forall b, FOK b -> fmt_float b <> dot) ->
+  (forall b, FOK b -> fmt_float b <> []) ->
+  (forall b x, FOK b -> In x (fmt_float b) -> x <> 13) ->
+  forall valid hd rs text,
+  header_ok hd -> hdr_defs_ok hd = true -> header_framed hd ->
+  Forall (rec_ok fmt_float FOK (hctx_of_header hd)) rs -> first_chrom_ok rs ->
+  (forall s, (forall b, In b s -> In b text) -> valid s = true) ->
+  write_file fmt_float hd rs = Some text ->
+  read_file_eager prs_float valid text = Some (hd, (map (canon (hctx_of_header hd)) rs, true)) /\
+  read_file_lazy prs_float valid text =
+    Some (hd, (map (fun r => Some (canon (hctx_of_header hd) r)) rs, true)).
+Proof. exact file_roundtrip. Qed.
+Print Assumptions c09_file_roundtrip.
+
+(* non-vacuity and the role of the reserved table: a 4.3 file whose records use INFO AC and FORMAT
+   DP without header lines for them is read back by both readers (AC as an Integer array: the
+   reserved definition); under 4.2 the same key has no definition; a header line that contradicts
+   the reserved definition (INFO AC Number=1 under 4.3) is written, parsed by the bare grammar,
+   and rejected by the reserved-definition check -- under 4.2 it is accepted *)
+Theorem c09_file_witnesses :
+  (exists hd rs text, write_file w_fmt hd rs = Some text /\ length rs = 2%nat /\
+     read_file_eager w_prs (fun _ => true) text = Some (hd, (rs, true)) /\
+     read_file_lazy w_prs (fun _ => true) text = Some (hd, (map Some rs, true)) /\
+     assoc [65; 67] (h_infos (hctx_of_header hd)) = Some (NOther, TInteger) /\
+     hdr_defs_ok hd = true) /\
+  (exists hd ls, write_header hd = Some ls /\ parse_header ls = Some hd /\ parse_header_chk ls = None) /\
+  (exists hd ls, write_header hd = Some ls /\ parse_header_chk ls = Some hd /\ hh_ff hd = (4, 2) /\
+     exists m, hh_infos hd = [m] /\ m_id m = [65; 67] /\ m_num m = Some (HCount 1)).
+Proof.
+  split; [|split].
+  - pose proof witness_file as W. cbv zeta in W. destruct W as (text & A & B & C & D & _ & F).
+    exists (x_hdr (4, 3)), [x_rec [99]; x_rec [99; 50]], text.
+    split; [exact A|]. split; [reflexivity|]. split; [exact B|]. split; [exact C|]. split; [exact D|exact F].
+  - pose proof witness_reserved_mismatch as W. cbv zeta in W. destruct W as ((ls & A & B & C) & _).
+    eexists; exists ls. split; [exact A|]. split; [exact B|exact C].
+  - pose proof witness_reserved_mismatch as W. cbv zeta in W. destruct W as (_ & (ls & A & B)).
+    eexists; exists ls. split; [exact A|]. split; [exact B|]. split; [reflexivity|].
+    eexists. split; [reflexivity|]. split; reflexivity.
+Qed.
+Print Assumptions c09_file_witnesses.
+
+(* first_chrom_ok is necessary: a first record whose CHROM starts with '#' is accepted by the
+   writer (the name is valid) and its line is then consumed by read_header as a header line:
+   neither reader gets the file back (input class file-first-record-chrom-hash-read-as-header-line) *)
+Theorem c09_file_first_chrom_hash :
+  exists hd rs text, write_file w_fmt hd rs = Some text /\
+    (exists r tl, rs = [r] /\ r_chrom r = 35 :: tl) /\
+    read_file_eager w_prs (fun _ => true) text = None /\
+    read_file_lazy w_prs (fun _ => true) text = None.
+Proof.
+  pose proof witness_first_chrom_hash as W. cbv zeta in W. destruct W as (text & A & B & C).
+  exists (x_hdr (4, 3)), [x_rec [35; 99]], text. split; [exact A|]. split; [|split; assumption].
+  eexists; eexists. split; reflexivity.
+Qed.
+Print Assumptions c09_file_first_chrom_hash.
 
 (* FORMER DEFECT lazy-samples-dropped-format-missing (repaired, 6449b9b): samples without FORMAT keys
    are written ". . ."; the lazy record used to return no samples.  Now such records are inside
